@@ -117,6 +117,7 @@ void   sim_free(void *p);
 char  *sim_strdup(const char *s);
 int    sa_owns(const void *p);                                        /* inside the arena */
 int    sa_lookup(const void *p, void **base, size_t *size, int *live, uint32_t *serial);  /* block containing p */
+int   sa_in_arena(const void *p);
 int    sa_readable(const void *p, size_t n);                          /* p..p+n inside one live block */
 size_t sa_live_count(void);
 size_t sa_live_bytes(void);
